@@ -100,7 +100,7 @@ Section PROGS.
     | O => leaf
     | S fuel' =>
         match parent p with
-        | [] => leaf
+        | [] | [_] => leaf              (* the project directory itself exists (nothing modelled removes it) *)
         | hd =>
             Do (CStat hd) (fun rh =>
               if exists_r rh then leaf
@@ -384,7 +384,7 @@ Section PROGS.
     Do (CListdir ws) (fun r =>
       match r with
       | FOk (RNames names) => k (inl (length (filter id_match names)))
-      | FErr ENOENT => k (inl 0%nat)
+      | FErr ENOENT => Do (CStat ws) (fun _ => k (inl 0%nat))      (* os.path.islink(workspace): not a link *)
       | FErr e => k (inr (PExn EOther))                 (* WorkspaceError *)
       | FOk _ => k (inr (PExn EOther))
       end).
@@ -586,3 +586,58 @@ Section CINV.
     end.
 
 End CINV.
+
+(* ------------------------------------------------------------------ actor scripts of C12 *)
+Inductive act :=
+| AProject                                   (* signac.Project(root)                               *)
+| AInit (sp : json)                          (* project.open_job(sp).init()                        *)
+| ADocSet (sp : json) (k : str) (v : json)   (* project.open_job(sp).doc[k] = v                    *)
+| ADocRead (sp : json)                       (* project.open_job(sp).doc()                         *)
+| ALen                                       (* len(project)                                       *)
+| ARmWs.                                     (* outside the property's alphabet: os.rmdir(workspace), errors ignored *)
+
+Inductive aobs := OUnit | ODoc (j : json) | ONum (n : nat).
+
+Definition doc_set (d : json) (k : str) (v : json) : json :=
+  match d with JObj kvs => JObj (aset k v kvs) | _ => d end.
+
+Section ACTORS.
+  Variable frepr : fl -> str.
+  Variable atomic : bool.
+  Variable tag : str.
+  Variable ws : path.
+
+  Definition docfile_of (sp : json) : path := ws ++ [calc_id frepr sp; DOCF].
+
+  Definition act_prog {A} (a : act) (k : aobs -> prog A) : prog A :=
+    match a with
+    | AProject => project_open ws (fun r => match r with inl _ => k OUnit | inr e => Raise e end)
+    | AInit sp => job_init frepr atomic tag ws sp false (fun r => match r with inl _ => k OUnit | inr e => Raise e end)
+    | ADocSet sp key v =>
+        doc_access frepr atomic tag ws sp (fun r =>
+          match r with
+          | inr e => Raise e
+          | inl _ =>
+              doc_load (docfile_of sp) (fun rd =>
+                match rd with
+                | inr e => Raise e
+                | inl d => doc_store frepr tag (docfile_of sp) (doc_set d key v)
+                             (fun rs => match rs with inl _ => k OUnit | inr e => Raise e end)
+                end)
+          end)
+    | ADocRead sp =>
+        doc_access frepr atomic tag ws sp (fun r =>
+          match r with
+          | inr e => Raise e
+          | inl _ => doc_load (docfile_of sp) (fun rd => match rd with inl d => k (ODoc d) | inr e => Raise e end)
+          end)
+    | ALen => project_len ws (fun r => match r with inl n => k (ONum n) | inr e => Raise e end)
+    | ARmWs => Do (CRmdir ws) (fun _ => k OUnit)
+    end.
+
+  Fixpoint actor_prog (acts : list act) (acc : list aobs) : prog (list aobs) :=
+    match acts with
+    | [] => Ret (rev acc)
+    | a :: rest => act_prog a (fun o => actor_prog rest (o :: acc))
+    end.
+End ACTORS.
